@@ -351,6 +351,19 @@ def jsonDec (s : List UInt8) : Option Hash :=
         | [] => none
     else none
 
+/-! ## serde: compact, non-self-describing binary formats (bincode 1.x default options, postcard, bcs)
+
+The derived impls go through `serialize_newtype_struct` / `deserialize_newtype_struct` (transparent in these formats) to the
+impls of `[u8; 32]`, a *tuple* of 32 `u8`: the elements, without a length prefix.  So the wire form is the 32 bytes, and a
+hash is interchangeable with a plain `[u8; 32]`. -/
+
+/-- wire form in a compact binary format -/
+def binEnc (h : Hash) : List UInt8 := h.bytes.toList
+
+/-- reading it back: exactly 32 bytes are consumed; `none` when fewer are available -/
+def binDec (s : List UInt8) : Option (Hash × List UInt8) :=
+  if h : (s.take 32).length = 32 then some (⟨⟨(s.take 32).toArray, by simpa using h⟩⟩, s.drop 32) else none
+
 /-! ## serde: CBOR (ciborium 0.2.2 over ciborium-ll 0.2.2) -/
 
 /-- big-endian bytes of `n`, `k` bytes -/
